@@ -65,7 +65,7 @@ def plan(tier):
         return {"runs": 40000, "slice": 50, "budget_s": 2400,
                 "slice_timeout_s": 1200}
     return {"runs": 640, "slice": 16, "budget_s": 150,
-            "slice_timeout_s": 400}
+            "slice_timeout_s": 900}
 
 
 def _declared_symbols(node):
